@@ -968,6 +968,519 @@ def other_history_cases(ctx, cases):
             kept.verify("attributes changed", {"n": n, "a": str(a), "b": str(b)})
             ctx.count("history:bb-attributes-changed")
 
+
+# ----------------------------------------------------------------------------------------------------
+# argument forms and aliasing for every entry point (hardening round): every accepted form is judged by the same
+# exact oracles; inputs must stay bitwise unchanged, outputs must not share memory with inputs or earlier outputs
+
+
+def finding(ctx, key, what, replay):
+    """a legal form / history the CLEAN code mishandles: own narrow key; only counted until listed in known_findings"""
+    if key in ctx.known:
+        ctx.spec_fail(key, what, replay)
+    else:
+        ctx.count("unlisted-finding:" + key)
+        ctx.extra.setdefault("unlisted_findings", {})[key] = {"what": what, "replay": replay}
+
+
+def _root(a):
+    while isinstance(a, np.ndarray) and a.base is not None and isinstance(a.base, np.ndarray):
+        a = a.base
+    return a
+
+
+class Guard:
+    """snapshot of the memory behind the inputs; after the call: unchanged, and not shared with the outputs"""
+
+    def __init__(self, ctx, key, label, inputs, replay):
+        self.ctx, self.key, self.label, self.replay = ctx, key, label, replay
+        self.inputs = [a for a in inputs if isinstance(a, np.ndarray)]
+        self.snaps = [(_root(a), _root(a).tobytes()) for a in self.inputs]
+
+    def after(self, outputs):
+        for r, b in self.snaps:
+            if r.tobytes() != b:
+                self.ctx.spec_fail(self.key + "_input_mutated", "%s(%s) changed its input" % (self.key, self.label), self.replay)
+        for o in outputs:
+            if isinstance(o, np.ndarray):
+                for a in self.inputs:
+                    if np.shares_memory(o, a) or np.shares_memory(o, _root(a)):
+                        self.ctx.spec_fail(self.key + "_aliasing", "%s(%s) returned memory of its input" % (self.key, self.label), self.replay)
+
+
+def array_forms(vals, integer, unsigned_ok=True):
+    """(label, object) for one 1-d sample in every accepted container / layout / dtype"""
+    f = [float(v) for v in vals]
+    n = len(f)
+    out = [("f64", np.array(f))]
+    a = np.full(2 * n, 9.5); a[::2] = f
+    out.append(("strided", a[::2]))
+    out.append(("reversed-view", np.array(f[::-1])[::-1]))
+    out.append(("F-column", np.asfortranarray(np.column_stack([f, f[::-1]]))[:, 0]))
+    out.append(("F-row", np.asfortranarray(np.vstack([f, f[::-1]]))[0, :]))
+    out.append(("C-column", np.column_stack([f, f[::-1]])[:, 0]))
+    if all(float(np.float32(x)) == x for x in f):
+        out.append(("f32", np.array(f, np.float32)))
+    if integer:
+        lo, hi = min(vals), max(vals)
+        for dt in (np.int64, np.int32, np.int16, np.int8, np.intp):
+            if np.iinfo(dt).min <= lo and hi <= np.iinfo(dt).max:
+                out.append((np.dtype(dt).name, np.array([int(v) for v in vals], dt)))
+        if unsigned_ok and lo >= 0:
+            for dt in (np.uint8, np.uint16, np.uint32, np.uint64):
+                if hi <= np.iinfo(dt).max:
+                    out.append((np.dtype(dt).name, np.array([int(v) for v in vals], dt)))
+    out.append(("list", f if not integer else [int(v) for v in vals]))
+    out.append(("tuple", tuple(f)))
+    return out
+
+
+INT_TYPES = [int, np.int8, np.int16, np.int32, np.int64, np.uint8, np.uint16, np.uint32, np.uint64, np.intp]
+
+
+def smooth_exact(x, wl, window):
+    wle = wl + 1 if wl % 2 == 0 else wl
+    k = wle // 2
+    wts = [F(1)] * wle if window == "flat" else [1 - abs(F(2 * i, wle - 1) - 1) for i in range(wle)]
+    tot = sum(wts)
+    ext = x[:k][::-1] + x + x[-k:][::-1]
+    return [sum(wts[j] * ext[i + j] for j in range(wle)) / tot for i in range(len(x))]
+
+
+def hamilton_bad(y, h, p, cyc, trd, tol=1e-7):
+    T = len(y)
+    cyc, trd = [float(v) for v in cyc], [float(v) for v in trd]
+    scale = max(abs(v) for v in y) or 1
+    nn = (p + h - 1) if p is not None else h
+    if len(cyc) != T or len(trd) != T:
+        return "lengths"
+    if any(not math.isnan(v) for v in cyc[:nn] + trd[:nn]) or any(math.isnan(v) for v in cyc[nn:] + trd[nn:]):
+        return "nan prefix"
+    if any(not close(F(c) + F(t), v, 1e-6 if tol > 1e-7 else 1e-13, scale) for c, t, v in zip(cyc[nn:], trd[nn:], y[nn:])):
+        return "cycle + trend != data"
+    if p is None:
+        if any(F(cyc[t]) != y[t] - y[t - h] for t in range(h, T)) or any(F(trd[t]) != y[t - h] for t in range(h, T)):
+            return "not the h-step difference"
+        return None
+    rows = T - p - h + 1
+    X = [[F(1)] + [y[p - j + t] for j in range(1, p + 1)] for t in range(rows)]
+    tgt = [y[p + h - 1 + t] for t in range(rows)]
+    XtX = [[sum(X[t][i] * X[t][j] for t in range(rows)) for j in range(p + 1)] for i in range(p + 1)]
+    Xty = [sum(X[t][i] * tgt[t] for t in range(rows)) for i in range(p + 1)]
+    b = solve_frac(XtX, Xty)
+    fit = [sum(X[t][j] * b[j] for j in range(p + 1)) for t in range(rows)]
+    if any(not close(trd[nn + t], fit[t], tol, scale) for t in range(rows)):
+        return "trend is not the OLS projection"
+    return None
+
+
+def forms_cases(ctx, cases):
+    import warnings
+    from quantecon._inequality import gini_coefficient, lorenz_curve, shorrocks_index, rank_size
+    from quantecon import hamilton_filter, periodogram, ar_periodogram, ECDF, ARMA
+    from quantecon._estspec import smooth
+    from quantecon.distributions import BetaBinomial
+    from .common import ratm
+    kept = Kept(ctx, "forms")
+
+    # ---- gini / lorenz / rank_size: integer-valued and dyadic samples in every form ----------------------------
+    rot_all = ["f64-noncontiguous", "int64", "int32", "int16", "int8", "f32", "uint16", "uint32", "uint64"]
+    jit_rot = {rot_all[ctx.seed % len(rot_all)]}
+    for rnd in range(ctx.n(2, 8)):
+        integer = (rnd % 2 == 0)
+        n = ctx.rng.choice([2, 6, 17]) if rnd else 6
+        vals = [F(ctx.rng.randint(0 if rnd % 4 == 0 else 1, 100)) for _ in range(n)] if integer else [F(ctx.rng.randint(1, 800), 8) for _ in range(n)]
+        if rnd == 0:
+            vals[1] = F(0)                   # an explicit zero observation (unsigned rank_size probe)
+        if sum(vals) == 0:
+            vals[0] = F(3)
+        ge = gini_exact(vals)
+        ys = sorted(vals); tot = sum(ys)
+        ref_i, acc = [F(0)], F(0)
+        for v in ys:
+            acc += v; ref_i.append(acc / tot)
+        for label, obj in array_forms(vals, integer):
+            rep = {"fn": "gini/lorenz/rank_size", "form": label, "y": [str(v) for v in vals]}
+            tol = 1e-6 if label == "f32" else 1e-12
+            # every (dtype, layout) signature is a separate Numba compilation (~3 s each for the two kernels): the quick
+            # tier takes the baseline, uint8 and two signatures rotating with the seed; thorough takes all of them
+            sig = label if label not in ("strided", "reversed-view", "F-row", "C-column") else "f64-noncontiguous"
+            sig = "f64" if sig == "F-column" else ("int64" if sig == "intp" else sig)
+            jit_on = ctx.thorough or sig in ("f64", "uint8") or sig in jit_rot
+            if label in ("list", "tuple") and not ctx.thorough:
+                try:                      # (the failed Numba typing of a list costs a compilation: thorough tier only)
+                    rank_size(obj)
+                    ctx.spec_fail("rank_size_forms", "rank_size(%s) now accepted: judge it" % label, rep)
+                except TypeError as e:
+                    finding(ctx, "rank_size_list_input", "rank_size(%s) raises TypeError (%s) although data is documented array_like" % (label, e),
+                            dict(rep, call="rank_size(%r)" % (obj,)))
+                continue
+            if not jit_on:
+                if label not in ("list", "tuple"):
+                    for c in (1.0, 0.5):
+                        g = Guard(ctx, "rank_size_forms", label, [obj], rep)
+                        rk, sz = rank_size(obj, c=c)
+                        g.after([rk, sz])
+                        k = int(n * c)
+                        if [F(float(v)) for v in sz] != sorted(vals, reverse=True)[:k]:
+                            if label.startswith("uint") and 0 in vals:
+                                finding(ctx, "rank_size_unsigned_zero", "rank_size on an unsigned array containing 0 puts the 0 first: %s" % [float(v) for v in sz],
+                                        dict(rep, call="rank_size(np.array(%s, np.%s))" % ([int(v) for v in vals], label)))
+                            else:
+                                ctx.spec_fail("rank_size_forms", "rank_size(%s input, c=%s) wrong" % (label, c), rep)
+                    ctx.count("forms:rank_size-only:" + label)
+                continue
+            ctx.count("forms:jit-signature:" + sig)
+            if label in ("list", "tuple"):
+                for fn in (gini_coefficient, lorenz_curve):
+                    try:
+                        fn(obj)
+                        ctx.count("forms:gini/lorenz:%s-accepted" % label)
+                    except Exception:
+                        ctx.count("forms:rejected:%s:%s" % (fn.__name__, label))     # Numba: no reflected lists / tuples
+                try:
+                    rk, sz = rank_size(obj)
+                    if [F(float(v)) for v in sz] != sorted(vals, reverse=True):
+                        ctx.spec_fail("rank_size_forms", "rank_size(%s) wrong" % label, rep)
+                except TypeError as e:
+                    finding(ctx, "rank_size_list_input", "rank_size(%s) raises TypeError (%s) although data is documented array_like" % (label, e),
+                            dict(rep, call="rank_size(%r)" % (obj,)))
+                continue
+            unsigned = label.startswith("uint")
+            g = Guard(ctx, "gini_forms", label, [obj], rep)
+            got = float(gini_coefficient(obj))
+            g.after([])
+            if not close(got, ge, tol):
+                if unsigned:
+                    finding(ctx, "gini_unsigned_dtype", "gini_coefficient on an unsigned integer array: %r, exact %r (y[i]-y[j] wraps)" % (got, float(ge)),
+                            dict(rep, call="gini_coefficient(np.array(%s, np.%s))" % ([int(v) for v in vals], label)))
+                else:
+                    ctx.spec_fail("gini_forms", "gini_coefficient(%s input)=%r, exact %r" % (label, got, float(ge)), rep)
+            if sig == "uint8" and not ctx.thorough:
+                ctx.count("forms:gini/lorenz/rank_size:" + label)
+                continue
+            g = Guard(ctx, "lorenz_forms", label, [obj], rep)
+            cp, ci = lorenz_curve(obj)
+            g.after([cp, ci]); kept.add("lorenz.people", cp, rep); kept.add("lorenz.income", ci, rep)
+            if len(cp) != n + 1 or any(not close(float(a), F(i, n), tol) for i, a in enumerate(cp)) \
+                    or any(not close(float(a), b, tol) for a, b in zip(ci, ref_i)):
+                ctx.spec_fail("lorenz_forms", "lorenz_curve(%s input) differs from the cumulative shares" % label, rep)
+            for c in (1.0, 0.5):
+                g = Guard(ctx, "rank_size_forms", label, [obj], rep)
+                rk, sz = rank_size(obj, c=c)
+                g.after([rk, sz]); kept.add("rank_size.size", sz, rep)
+                k = int(n * c)
+                if [int(v) for v in rk] != list(range(1, k + 1)) or [F(float(v)) for v in sz] != sorted(vals, reverse=True)[:k]:
+                    if unsigned and 0 in vals:
+                        finding(ctx, "rank_size_unsigned_zero", "rank_size on an unsigned array containing 0 puts the 0 first: %s" % [float(v) for v in sz],
+                                dict(rep, call="rank_size(np.array(%s, np.%s))" % ([int(v) for v in vals], label)))
+                    else:
+                        ctx.spec_fail("rank_size_forms", "rank_size(%s input, c=%s) is not the top observations in decreasing order" % (label, c), rep)
+            ctx.count("forms:gini/lorenz/rank_size:" + label)
+        v2 = [F(ctx.rng.randint(1, 800), 8) for _ in range(n)]          # same shape, different data, same process
+        a2 = np.array([float(v) for v in v2])
+        g2 = float(gini_coefficient(a2)); cp2, ci2 = lorenz_curve(a2)
+        tot2 = sum(v2); acc = F(0); ref2 = [F(0)]
+        for v in sorted(v2):
+            acc += v; ref2.append(acc / tot2)
+        if not close(g2, gini_exact(v2), 1e-12) or any(not close(float(a), b, 1e-12) for a, b in zip(ci2, ref2)):
+            ctx.spec_fail("gini_forms", "second call on a sample of the same length is wrong", {"y": [str(v) for v in v2]})
+        kept.add("lorenz.income", ci2, {}); kept.add("lorenz.people", cp2, {})
+        cases.append(Case("C19 gini y=%s" % rats(vals), fnum(float(gini_coefficient(np.array([float(v) for v in vals])))),
+                          cmp=env_cmp(1e-12), tag="gini-forms"))
+    # rank_size: every scalar form of c, omitted / positional / keyword
+    dat = np.array([3.0, 1.0, 2.0, 5.0, 4.0, 4.0])
+    for c, k in [(1, 6), (True, 6), (np.float32(0.5), 3), (np.float64(0.5), 3), (np.array(0.5), 3), (np.int8(1), 6), (np.uint8(1), 6),
+                 (np.float64(0.0), 0), (0.999, 5)]:
+        for call in (lambda: rank_size(dat, c), lambda: rank_size(dat, c=c), lambda: rank_size(data=dat, c=c)):
+            rk, sz = call()
+            if list(sz) != sorted(dat, reverse=True)[:k] or [int(v) for v in rk] != list(range(1, k + 1)):
+                ctx.spec_fail("rank_size_forms", "rank_size(c=%r) wrong" % (c,), {"c": repr(c)})
+        ctx.count("forms:rank_size:c-scalar-forms")
+    if list(rank_size(dat)[1]) != sorted(dat, reverse=True):
+        ctx.spec_fail("rank_size_forms", "rank_size(data) with c omitted is not the whole sample", {})
+
+    # ---- shorrocks_index: containers, layouts, dtypes ----------------------------------------------------------
+    for rnd in range(ctx.n(2, 8)):
+        m = ctx.rng.randint(2, 5)
+        integer = rnd % 2 == 1
+        if integer:      # 0/1 transition matrix (each row moves to one class)
+            tgt_ = [ctx.rng.randrange(m) for _i in range(m)]
+            A = [[F(1) if j == tgt_[i] else F(0) for j in range(m)] for i in range(m)]
+        else:            # dyadic stochastic rows
+            A = []
+            for _i in range(m):
+                cuts = sorted(ctx.rng.randint(0, 16) for _j in range(m - 1))
+                A.append([F(b_ - a_, 16) for a_, b_ in zip([0] + cuts, cuts + [16])])
+        ref = (m - sum(A[i][i] for i in range(m))) / F(m - 1)
+        Af = np.array([[float(v) for v in r] for r in A])
+        big = np.kron(Af, np.ones((2, 2)))
+        forms = [("list", [[float(v) for v in r] for r in A]), ("tuple", tuple(tuple(float(v) for v in r) for r in A)), ("C", Af.copy()),
+                 ("F", np.asfortranarray(Af)), ("transposed-view", np.ascontiguousarray(Af.T).T), ("strided", big[::2, ::2]),
+                 ("f32", Af.astype(np.float32)), ("matrix", np.matrix(Af))]
+        if integer:
+            forms += [(np.dtype(dt).name, Af.astype(dt)) for dt in (np.int8, np.int32, np.int64, np.uint8, np.uint64)]
+        for label, obj in forms:
+            rep = {"fn": "shorrocks_index", "form": label, "A": [[str(v) for v in r] for r in A]}
+            g = Guard(ctx, "shorrocks_forms", label, [obj], rep)
+            with warnings.catch_warnings():
+                warnings.simplefilter("ignore")
+                got = float(shorrocks_index(obj))
+            g.after([])
+            if not close(got, ref, 1e-6 if label == "f32" else 1e-14):
+                ctx.spec_fail("shorrocks_forms", "shorrocks_index(%s input)=%r, (m-trace)/(m-1)=%s" % (label, got, ref), rep)
+            ctx.count("forms:shorrocks:" + label)
+        cases.append(Case("C19 shorrocks A=%s" % ratm(A), fnum(float(shorrocks_index(Af))), cmp=env_cmp(1e-15), tag="shorrocks-forms"))
+
+    # ---- hamilton_filter: data forms, every integer type for h and p, omitted / None / positional / keyword ----
+    for rnd in range(ctx.n(2, 6)):
+        T = ctx.rng.randint(20, 60)
+        yv = [F(ctx.rng.randint(-40, 40)) for _ in range(T)]
+        h, p = ctx.rng.randint(1, 6), ctx.rng.randint(1, 3)
+        forms = [f_ for f_ in array_forms(yv, True, unsigned_ok=False)]
+        try:
+            import pandas as pd
+            forms.append(("pandas-Series", pd.Series([float(v) for v in yv])))
+        except ImportError:
+            pd = None
+        for label, obj in forms:
+            for pp in (p, None):
+                rep = {"fn": "hamilton_filter", "form": label, "y": [str(v) for v in yv], "h": h, "p": pp}
+                g = Guard(ctx, "hamilton_forms", label, [obj], rep)
+                cyc, trd = hamilton_filter(obj, h, pp) if pp is not None else hamilton_filter(obj, h)
+                g.after([cyc, trd]); kept.add("hamilton.cycle", cyc, rep); kept.add("hamilton.trend", trd, rep)
+                bad = hamilton_bad(yv, h, pp, cyc, trd)
+                if bad:
+                    ctx.spec_fail("hamilton_forms", "hamilton_filter(%s data, h=%d, p=%s): %s" % (label, h, pp, bad), rep)
+            ctx.count("forms:hamilton:data-" + label)
+        yarr = np.array([float(v) for v in yv])
+        # same shapes, different data, same process (a result cached on (T, h, p) would be stale); boundary p = 0
+        y2 = [F(ctx.rng.randint(-40, 40)) for _ in range(T)]
+        y2a = np.array([float(v) for v in y2])
+        for pp in (p, None, 0):
+            rep = {"fn": "hamilton_filter", "form": "second call, same shape", "y": [str(v) for v in y2], "h": h, "p": pp}
+            g = Guard(ctx, "hamilton_forms", "second-call", [y2a], rep)
+            c_, t_ = hamilton_filter(y2a, h, pp)
+            g.after([c_, t_]); kept.add("hamilton.cycle", c_, rep); kept.add("hamilton.trend", t_, rep)
+            bad = hamilton_bad(y2, h, pp, c_, t_)
+            if bad:
+                ctx.spec_fail("hamilton_forms", "hamilton_filter on a second series of the same length (h=%d, p=%s): %s" % (h, pp, bad), rep)
+        c_, t_ = hamilton_filter(yarr, h, 0)
+        if hamilton_bad(yv, h, 0, c_, t_):
+            ctx.spec_fail("hamilton_forms", "hamilton_filter(p=0) is not the projection on the constant", {"y": [str(v) for v in yv], "h": h, "p": 0})
+        cases.append(Case("C19 hamilton y=%s h=%d p=0" % (rats(yv), h), flist(c_) + "|" + flist(t_), cmp=env_cmp(1e-7, scale=40), tag="hamilton-p0"))
+        ctx.count("forms:hamilton:p=0-and-second-call")
+        ref_c, ref_t = hamilton_filter(yarr, h, p)
+        ref_c0, ref_t0 = hamilton_filter(yarr, h)
+        if hamilton_bad(yv, h, p, ref_c, ref_t) or hamilton_bad(yv, h, None, ref_c0, ref_t0):
+            ctx.spec_fail("hamilton_forms", "hamilton_filter reference call wrong", {"y": [str(v) for v in yv], "h": h, "p": p})
+        for ty in INT_TYPES:
+            calls = {"positional": lambda: hamilton_filter(yarr, ty(h), ty(p)), "keyword": lambda: hamilton_filter(data=yarr, h=ty(h), p=ty(p)),
+                     "mixed": lambda: hamilton_filter(yarr, h=ty(h), p=p)}
+            for cl, call in calls.items():
+                c_, t_ = call()
+                if not (np.array_equal(c_, ref_c, equal_nan=True) and np.array_equal(t_, ref_t, equal_nan=True)):
+                    ctx.spec_fail("hamilton_forms", "hamilton_filter(h=%s(%d), p=%s(%d)) [%s] differs from the Python-int call" % (ty.__name__, h, ty.__name__, p, cl),
+                                  {"y": [str(v) for v in yv], "h": h, "p": p, "type": ty.__name__})
+            for call in (lambda: hamilton_filter(yarr, ty(h)), lambda: hamilton_filter(yarr, ty(h), None), lambda: hamilton_filter(yarr, h=ty(h), p=None)):
+                c_, t_ = call()
+                if not (np.array_equal(c_, ref_c0, equal_nan=True) and np.array_equal(t_, ref_t0, equal_nan=True)):
+                    ctx.spec_fail("hamilton_forms", "hamilton_filter(h=%s(%d)) without p differs from the Python-int call" % (ty.__name__, h),
+                                  {"y": [str(v) for v in yv], "h": h, "type": ty.__name__})
+            ctx.count("forms:hamilton:h,p-" + ty.__name__)
+        cases.append(Case("C19 hamilton y=%s h=%d p=%d" % (rats(yv), h, p), flist(ref_c) + "|" + flist(ref_t),
+                          cmp=env_cmp(1e-7, scale=40), tag="hamilton-forms"))
+    # probes beyond what the clean code handles (own keys)
+    y200 = np.arange(200.0) ** 1.5
+    for ty in (np.int8,):
+        try:
+            c_, t_ = hamilton_filter(y200, ty(2), ty(1))
+            if not np.array_equal(c_, hamilton_filter(y200, 2, 1)[0], equal_nan=True):
+                finding(ctx, "hamilton_small_int_overflow", "hamilton_filter(T=200, h=int8(2), p=int8(1)) differs from the Python-int call", {})
+        except OverflowError as e:
+            finding(ctx, "hamilton_small_int_overflow", "hamilton_filter(np.arange(200.)**1.5, np.int8(2), np.int8(1)) raises OverflowError (%s): "
+                    "T - p is evaluated in int8" % e, {"call": "hamilton_filter(np.arange(200.)**1.5, np.int8(2), np.int8(1))"})
+    if pd is not None:
+        try:
+            c_, t_ = hamilton_filter(pd.DataFrame({"a": [float(v) for v in range(30)]}), 2, 1)
+            if np.shape(c_) not in ((30,), (30, 1)):
+                finding(ctx, "hamilton_dataframe", "hamilton_filter(one-column DataFrame) returned shape %s" % (np.shape(c_),), {})
+        except ValueError as e:
+            finding(ctx, "hamilton_dataframe", "hamilton_filter(one-column DataFrame, 2, 1) raises ValueError (%s) although the docstring says "
+                    "'array or dataframe'" % str(e)[:80], {"call": "hamilton_filter(pd.DataFrame({'a': range(30)}, dtype=float), 2, 1)"})
+
+    # ---- periodogram / smooth / ar_periodogram ------------------------------------------------------------------
+    for rnd in range(ctx.n(2, 6)):
+        n = ctx.rng.choice([8, 21, 30, 45])
+        xv = [F(ctx.rng.randint(-32, 32)) for _ in range(n)]
+        xf = np.array([float(v) for v in xv])
+        tgrid = np.arange(n)
+        refI = np.array([abs(np.sum(xf * np.exp(-2j * np.pi * j * tgrid / n))) ** 2 / n for j in range(n // 2 + 1)])
+        sm_ref = {(wl, wn): smooth_exact(xv, wl, wn) for wl in (3, 4, 5) for wn in ("flat", "bartlett")}
+        Xr = np.column_stack([np.ones(n - 1), xf[:-1]])
+        beta = np.linalg.lstsq(Xr, xf[1:], rcond=None)[0]
+        for label, obj in array_forms(xv, True, unsigned_ok=False):
+            rep = {"fn": "periodogram/smooth/ar_periodogram", "form": label, "x": [str(v) for v in xv]}
+            tol = 1e-4 if label == "f32" else 1e-9
+            g = Guard(ctx, "periodogram_forms", label, [obj], rep)
+            w, I = periodogram(obj)
+            g.after([w, I]); kept.add("periodogram.w", w, rep); kept.add("periodogram.I", I, rep)
+            sc = max(1.0, float(np.sum(xf * xf)))
+            if len(w) != n // 2 + 1 or np.max(np.abs(np.asarray(w, float) - 2 * np.pi * np.arange(n // 2 + 1) / n)) > 1e-6 \
+                    or np.max(np.abs(np.asarray(I, float) - refI)) > tol * sc:
+                ctx.spec_fail("periodogram_forms", "periodogram(%s input) differs from |DFT|^2/n at 2 pi j/n" % label, rep)
+            for wl in (3, 4, 5):
+                for wn in ("flat", "bartlett"):
+                    buf = io.StringIO()
+                    g = Guard(ctx, "smooth_forms", label, [obj], rep)
+                    with contextlib.redirect_stdout(buf):
+                        out = smooth(obj, wl, wn) if wl != 5 else smooth(obj, window_len=wl, window=wn)
+                    g.after([out]); kept.add("smooth", out, rep)
+                    if len(out) != n or any(not close(float(a), b, 1e-5 if label == "f32" else 1e-12, 32) for a, b in zip(out, sm_ref[(wl, wn)])):
+                        ctx.spec_fail("smooth_forms", "smooth(%s input, %d, %s) is not the reflected weighted moving average" % (label, wl, wn), rep)
+            # windowed periodogram = smooth(periodogram); window positional / keyword / None / omitted
+            w1, I1 = periodogram(obj, "flat", 3)
+            w2, I2 = periodogram(obj, window="flat", window_len=3)
+            w3, I3 = periodogram(obj, None)
+            refw = smooth(np.asarray(refI), 3, "flat")
+            if not (np.allclose(I1, refw, rtol=0, atol=tol * sc) and np.array_equal(I1, I2) and np.array_equal(np.asarray(I3), np.asarray(I))):
+                ctx.spec_fail("periodogram_forms", "periodogram(%s input) window argument forms disagree" % label, rep)
+            g = Guard(ctx, "ar_periodogram_forms", label, [obj], rep)
+            wa, Ia = ar_periodogram(obj, "flat", 3)
+            g.after([wa, Ia]); kept.add("ar_periodogram.I", Ia, rep)
+            e = xf[1:] - Xr @ beta
+            we, Ie = periodogram(e, "flat", 3)
+            refA = Ie / np.abs(1 - beta[1] * np.exp(1j * we)) ** 2
+            if len(Ia) != len(refA) or not np.allclose(Ia, refA, rtol=1e-3 if label == "f32" else 1e-6, atol=1e-9 * float(np.max(np.abs(refA)))):
+                ctx.spec_fail("ar_periodogram_forms", "ar_periodogram(%s input) differs from the recoloured periodogram of the AR(1) residuals" % label, rep)
+            ctx.count("forms:periodogram/smooth/ar_periodogram:" + label)
+        x2 = [F(ctx.rng.randint(-32, 32)) for _ in range(n)]
+        x2f = np.array([float(v) for v in x2])
+        w2_, I2_ = periodogram(x2f)
+        refI2 = np.array([abs(np.sum(x2f * np.exp(-2j * np.pi * j * tgrid / n))) ** 2 / n for j in range(n // 2 + 1)])
+        s2_ = smooth_quiet(smooth, x2f, 4, "bartlett")
+        if np.max(np.abs(I2_ - refI2)) > 1e-9 * max(1.0, float(np.sum(x2f * x2f))) \
+                or any(not close(float(a), b, 1e-12, 32) for a, b in zip(s2_, smooth_exact(x2, 4, "bartlett"))):
+            ctx.spec_fail("periodogram_forms", "second call on a series of the same length is wrong", {"x": [str(v) for v in x2]})
+        kept.add("periodogram.I", I2_, {}); kept.add("smooth", s2_, {})
+        for ty in INT_TYPES:
+            buf = io.StringIO()
+            with contextlib.redirect_stdout(buf):
+                for wl in (3, 4):
+                    a1 = smooth(xf, ty(wl), "bartlett")
+                    if any(not close(float(a), b, 1e-12, 32) for a, b in zip(a1, sm_ref[(wl, "bartlett")])):
+                        ctx.spec_fail("smooth_forms", "smooth(window_len=%s(%d)) wrong" % (ty.__name__, wl), {"x": [str(v) for v in xv], "type": ty.__name__})
+                if not np.array_equal(periodogram(xf, "flat", ty(3))[1], periodogram(xf, "flat", 3)[1]) \
+                        or not np.array_equal(ar_periodogram(xf, "flat", ty(3))[1], ar_periodogram(xf, "flat", 3)[1]):
+                    ctx.spec_fail("periodogram_forms", "window_len=%s(3) differs from window_len=3" % ty.__name__, {"type": ty.__name__})
+            ctx.count("forms:smooth:window_len-" + ty.__name__)
+        cases.append(Case("C19 smooth x=%s wl=4 window=bartlett" % rats(xv), flist(float(v) for v in smooth_quiet(smooth, xf, 4, "bartlett")),
+                          cmp=env_cmp(1e-12, scale=32), tag="smooth-forms"))
+
+    # ---- ECDF / BetaBinomial / ARMA argument forms -------------------------------------------------------------
+    obs = [F(ctx.rng.randint(0, 9)) for _ in range(12)]
+    xs = [F(ctx.rng.randint(-1, 10)) for _ in range(5)]
+    ref = [F(sum(1 for o in obs if o <= x), len(obs)) for x in xs]
+    for label, obj in array_forms(obs, True):
+        e = ECDF(obj)
+        for xl, xo in array_forms(xs, True, unsigned_ok=False):
+            g = Guard(ctx, "ecdf_forms", label + "/" + xl, [obj, xo], {})
+            got = e(xo)
+            g.after([got])
+            if [F(float(v)) for v in np.ravel(got)] != [F(float(r)) for r in ref]:
+                ctx.spec_fail("ecdf_forms", "ECDF(%s observations)(%s x) wrong" % (label, xl), {"obs": [str(v) for v in obs], "x": [str(v) for v in xs]})
+        for sc_ in (int(xs[0]), float(xs[0]), np.float32(xs[0]), np.float64(xs[0]), np.int8(xs[0]), np.int64(xs[0]), np.array(float(xs[0]))):
+            if F(float(e(sc_))) != F(float(ref[0])):
+                ctx.spec_fail("ecdf_forms", "ECDF(%s observations)(scalar %r) wrong" % (label, sc_), {"obs": [str(v) for v in obs], "x": repr(sc_)})
+        ctx.count("forms:ecdf:" + label)
+    n_, a_, b_ = 20, F(2), F(3)
+    refd = BetaBinomial(20, 2.0, 3.0)
+    refv = (float(refd.mean), float(refd.var), float(refd.std), float(refd.skew), refd.pdf())
+    for nt in INT_TYPES + [np.float64]:
+        for at in (int, float, np.float32, np.float64, np.int64):
+            d = BetaBinomial(nt(n_), at(2), at(3))
+            try:
+                with warnings.catch_warnings():
+                    warnings.simplefilter("ignore")
+                    if nt is np.float64:
+                        got = (float(d.mean), float(d.var), float(d.std), float(d.skew), refv[4])
+                    else:
+                        got = (float(d.mean), float(d.var), float(d.std), float(d.skew), d.pdf())
+                okv = all(abs(x - y) <= 1e-6 * max(1, abs(y)) for x, y in zip(got[:4], refv[:4])) and np.allclose(got[4], refv[4], rtol=1e-6)
+            except (ValueError, ZeroDivisionError) as e_:
+                got, okv = ("raised %s: %s" % (type(e_).__name__, e_),), False
+            if not okv:
+                if nt in (np.int8, np.uint8) or (nt in (np.int16, np.uint16) and at in (int, np.int64)):
+                    finding(ctx, "bb_small_int_n", "BetaBinomial(%s(20), %s(2), %s(3)): mean/var/std/skew=%r, exact %r (small-integer arithmetic overflows)" % (
+                        nt.__name__, at.__name__, at.__name__, got[:4], refv[:4]), {"call": "BetaBinomial(np.%s(20), %s(2), %s(3))" % (nt.__name__, at.__name__, at.__name__)})
+                else:
+                    ctx.spec_fail("bb_forms", "BetaBinomial(n=%s, a,b=%s) differs from the Python-number result" % (nt.__name__, at.__name__),
+                                  {"n": 20, "a": 2, "b": 3, "ntype": nt.__name__, "atype": at.__name__})
+        ctx.count("forms:bb:n-" + nt.__name__)
+    for (nn_, aa, bb) in [(np.int8(60), 2, 3), (np.int8(100), 2.0, 3.0), (np.uint8(200), 2.0, 3.0)]:
+        d, r_ = BetaBinomial(nn_, aa, bb), BetaBinomial(int(nn_), aa, bb)
+        rv = (float(r_.var), float(r_.skew))
+        try:
+            with warnings.catch_warnings():
+                warnings.simplefilter("ignore")
+                gv = (float(d.var), float(d.skew))
+        except (ValueError, ZeroDivisionError) as e_:
+            gv = (float("nan"), float("nan"))
+        if any(not abs(x - y) <= 1e-9 * max(1, abs(y)) for x, y in zip(gv, rv)):
+            finding(ctx, "bb_small_int_n", "BetaBinomial(%r, %r, %r): var, skew = %r, with a Python int n %r" % (nn_, aa, bb, gv, rv),
+                    {"call": "BetaBinomial(%r, %r, %r)" % (nn_, aa, bb)})
+    # ARMA: every container / scalar form of phi, theta, sigma and of the integer arguments
+    phi, theta, sigma = [F(1, 2), F(-1, 4)], [F(1, 4)], F(2)
+    pe = psi_exact(phi, theta, 6)
+    ge_ = acov_exact(phi, theta, sigma, 4)
+    pf = [float(v) for v in phi]
+    phi_forms = [("list", pf), ("tuple", tuple(pf)), ("f64", np.array(pf)), ("f32", np.array(pf, np.float32)), ("strided", np.array([0.5, 9, -0.25, 9])[::2]),
+                 ("row-2d", np.array([pf]))]
+    th_forms = [[0.25], (0.25,), 0.25, np.float32(0.25), np.float64(0.25), np.array(0.25), np.array([0.25], np.float32)]
+    sg_forms = [2, 2.0, np.float32(2), np.int8(2), np.uint64(2), np.array(2.0)]
+    nt_forms = [int, np.int8, np.uint8, np.int64, np.uint64, np.intp, np.int16, np.uint32]
+    combos = [(i % len(phi_forms), i % len(th_forms), (i // 2) % len(sg_forms), i % len(nt_forms)) for i in range(ctx.n(14, 56))]
+    for (i1, i2, i3, i4) in combos:
+        label, ph = phi_forms[i1]
+        for th in (th_forms[i2],):
+            for sg in (sg_forms[i3],):
+                a = ARMA(ph, th, sg)
+                for nt in (nt_forms[i4],):
+                    with warnings.catch_warnings():
+                        warnings.simplefilter("ignore")
+                        ir = a.impulse_response(nt(6)); ac = a.autocovariance(nt(4)); w_, sp = a.spectral_density(True, nt(4)); sm = a.simulation(nt(3), 5)
+                    f32 = label == "f32" or isinstance(th, np.float32) or getattr(th, "dtype", None) == np.float32
+                    t9, tA = (1e-5, F(1, 10 ** 5)) if f32 else (1e-9, ACOV_TOL)
+                    okk = len(ir) == 6 and all(close(float(x), y, t9) for x, y in zip(ir, pe)) \
+                        and len(ac) == 4 and all(abs(F(float(x)) - y) <= tA * ge_[0] for x, y in zip(ac, ge_)) \
+                        and len(sp) == 4 and close(float(np.real(sp[0])), spec_exact([F(1)] + theta, [F(1), -phi[0], -phi[1]], sigma, F(1), F(0)), t9) \
+                        and close(float(np.real(sp[1])), spec_exact([F(1)] + theta, [F(1), -phi[0], -phi[1]], sigma, F(0), F(1)), t9) and len(sm) == 3
+                    if not okk:
+                        ctx.spec_fail("arma_forms", "ARMA(phi as %s, theta=%r, sigma=%r) with %s arguments: wrong answers" % (label, th, sg, nt.__name__),
+                                      {"phi": pf, "theta": repr(th), "sigma": repr(sg), "inttype": nt.__name__})
+        ctx.count("forms:arma:phi-" + label)
+    for label, ph in [("python-float", 0.5), ("np.float32", np.float32(0.5)), ("np.float64", np.float64(0.5)), ("0-d array", np.array(0.5)),
+                      ("leading-zero list", [0, 0.5]), ("int zeros", np.array([0, 0]))]:
+        a = ARMA(ph, 0.25)
+        cur_phi = [F(float(v)) for v in np.atleast_1d(np.asarray(ph, float)).ravel()]
+        with warnings.catch_warnings():
+            warnings.simplefilter("ignore")
+            ir = a.impulse_response(5)
+        if any(not close(float(x), y, 1e-9) for x, y in zip(ir, psi_exact(cur_phi, [F(1, 4)], 5))):
+            ctx.spec_fail("arma_forms", "ARMA(phi=%s) impulse response wrong" % label, {"phi": repr(ph)})
+        ctx.count("forms:arma:phi-" + label)
+    a = ARMA(0.5)
+    if not (np.array_equal(a.simulation(5, 7), a.simulation(ts_length=5, random_state=7))
+            and np.array_equal(a.simulation(5, np.random.RandomState(7)), a.simulation(5, 7)) and len(a.simulation(4, np.random.default_rng(1))) == 4
+            and len(a.simulation()) == 90 and len(a.impulse_response()) == 30 and len(a.autocovariance()) == 16 and len(a.spectral_density()[0]) == 1200):
+        ctx.spec_fail("arma_forms", "ARMA default / seed argument forms disagree", {})
+    kept.verify("all forms", {})
+
+
+def smooth_quiet(smooth, x, wl, wn):
+    with contextlib.redirect_stdout(io.StringIO()):
+        return smooth(x, wl, wn)
+
 # ----------------------------------------------------------------------------------------------------
 # hamilton_filter
 
@@ -1219,6 +1732,7 @@ def run(ctx):
     arma_persistent_cases(ctx, cases)
     arma_history_cases(ctx, cases)
     other_history_cases(ctx, cases)
+    forms_cases(ctx, cases)
     hamilton_cases(ctx, cases)
     spectral_cases(ctx, cases)
     ctx.assumptions.append("FFT, scipy.signal.freqz/dimpulse/dlsim, sqrt, beta/binom of scipy.special are not modelled: the clauses that "
